@@ -211,6 +211,19 @@ type Tree struct {
 
 type M map[string]M
 
+// MNode recurses BY VALUE through a map element and has a member after the map.
+type MNode struct {
+	Kids map[string]MNode
+	Name string
+}
+
+// LNode recurses through a map of slices and has members before and after.
+type LNode struct {
+	A int
+	L map[string][]LNode
+	Z string
+}
+
 // PoolType describes one hand-written type usable as a leaf of generated types.
 type PoolType struct {
 	Name      string
@@ -261,6 +274,8 @@ var Pool = []PoolType{
 	{Name: "N", Type: reflect.TypeOf(N{}), Recursive: true},
 	{Name: "Tree", Type: reflect.TypeOf(Tree{}), Recursive: true},
 	{Name: "M", Type: reflect.TypeOf(M(nil)), Recursive: true},
+	{Name: "MNode", Type: reflect.TypeOf(MNode{}), Recursive: true},
+	{Name: "LNode", Type: reflect.TypeOf(LNode{}), Recursive: true},
 }
 
 func PoolByName(name string) *PoolType {
